@@ -41,7 +41,7 @@ pub struct ChildOpts {
 
 fn child_doc(c: &ChildOpts) -> String {
     let mut s = String::new();
-    s.push_str("<scxml xmlns=\"http://www.w3.org/2005/07/scxml\" version=\"1.0\" datamodel=\"rfsm-expression\" name=\"child\" initial=\"c0\">");
+    s.push_str("<scxml xmlns=\"http://www.w3.org/2005/07/scxml\" version=\"1.0\" datamodel=\"rfsm-expression\" name=\"child\" initial=\"c0\"><datamodel><data id=\"a\" expr=\"0\"/><data id=\"m\" expr=\"0\"/></datamodel>");
     s.push_str("<state id=\"c0\"><onentry>");
     for k in 0..c.msgs {
         s.push_str(&format!("<send target=\"#_parent\" event=\"childmsg.{}\"/>", k));
@@ -51,6 +51,8 @@ fn child_doc(c: &ChildOpts) -> String {
     }
     s.push_str("</onentry>");
     s.push_str("<transition event=\"poke\"><send target=\"#_parent\" event=\"childmsg.poked\"/></transition>");
+    // an autoforwarded event with an array: parent and child read its elements at the same time, in opposite order
+    s.push_str("<transition event=\"arr\"><assign location=\"a\" expr=\"_event.data.p\"/><assign location=\"m\" expr=\"a[1] + a[0]\"/><assign location=\"m\" expr=\"a[1] + a[0]\"/><script>mark('carr')</script></transition>");
     if c.finish {
         s.push_str("<transition target=\"cdone\"/>");
     } else {
@@ -66,7 +68,7 @@ pub fn peer_doc(o: &PeerOpts) -> String {
         "<scxml xmlns=\"http://www.w3.org/2005/07/scxml\" version=\"1.0\" datamodel=\"rfsm-expression\" name=\"{}\" initial=\"idle\">\n",
         o.name
     ));
-    s.push_str(" <datamodel><data id=\"n\" expr=\"0\"/><data id=\"t\" expr=\"0\"/><data id=\"g\" expr=\"0\"/></datamodel>\n <state id=\"idle\">\n  <onentry>");
+    s.push_str(" <datamodel><data id=\"n\" expr=\"0\"/><data id=\"t\" expr=\"0\"/><data id=\"g\" expr=\"0\"/><data id=\"a\" expr=\"0\"/></datamodel>\n <state id=\"idle\">\n  <onentry>");
     for g in &o.greet {
         s.push_str(&format!("<send target=\"#_scxml_{}\" event=\"hello\"/>", g));
     }
@@ -93,6 +95,7 @@ pub fn peer_doc(o: &PeerOpts) -> String {
     s.push_str(&format!("  <transition event=\"hello\"><send targetexpr=\"_event.origin\" event=\"hi\"/>{}</transition>\n", poke));
     s.push_str(&format!("  <transition event=\"childmsg.poked\"><assign location=\"n\" expr=\"n + 1\"/></transition>\n  <transition event=\"childmsg\"><assign location=\"n\" expr=\"n + 1\"/>{}</transition>\n", poke));
     s.push_str(&format!("  <transition event=\"poke\">{}</transition>\n", poke));
+    s.push_str("  <transition event=\"arr\"><assign location=\"a\" expr=\"_event.data.p\"/><assign location=\"n\" expr=\"a[0] + a[1]\"/><assign location=\"n\" expr=\"a[0] + a[1]\"/><script>mark('parr')</script></transition>\n");
     s.push_str("  <transition event=\"back\" target=\"idle\"/>\n  <transition event=\"done.invoke\" target=\"idle\"/>\n");
     s.push_str("  <transition event=\"ping\"><script>mark('pong')</script></transition>\n </state>\n</scxml>\n");
     s
@@ -136,7 +139,7 @@ impl Property for C17Prop {
     }
 
     fn required_probes(&self) -> Vec<&'static str> {
-        vec!["concurrent_start", "invoke_started", "timer_fired", "timer_fired_while_session_busy", "cross_session_send", "cancel_sent", "shutdown_called", "lock_contention"]
+        vec!["concurrent_start", "invoke_started", "timer_fired", "timer_fired_while_session_busy", "cross_session_send", "cancel_sent", "shutdown_called", "lock_contention", "array_event_read_by_child"]
     }
 
     fn assumptions(&self) -> Vec<String> {
@@ -150,11 +153,12 @@ impl Property for C17Prop {
         let m = rng.range(2, 3) as usize; // driver-started peers, ids 1..m
         let extra = rng.range(0, if tier == Tier::Quick { 2 } else { 3 }) as usize;
         let mut docs = Vec::new();
+        let exp = std::env::var("VERIF_EXPERIMENT_C17ARR").is_ok();
         let mk_child = |rng: &mut Rng| ChildOpts {
             msgs: rng.below(3) as u32,
-            finish: rng.chance(1, 2),
+            finish: rng.chance(1, 2) && !exp,
             delayed_ms: if rng.chance(1, 3) { Some(rng.range(1, 20)) } else { None },
-            autoforward: rng.chance(1, 4),
+            autoforward: rng.chance(1, 2) || exp,
         };
         for k in 0..m {
             // peer k+1 greets the peers started before it
@@ -164,8 +168,8 @@ impl Property for C17Prop {
                 greet,
                 ticks: rng.below(3) as u32,
                 tick_ms: rng.range(1, 15),
-                invoke: if rng.chance(1, 2) { Some(mk_child(rng)) } else { None },
-                go_on_start: rng.chance(1, 4),
+                invoke: if rng.chance(1, 2) || exp { Some(mk_child(rng)) } else { None },
+                go_on_start: rng.chance(1, 4) || exp,
                 poke_kid: rng.chance(1, 2),
             };
             docs.push(DocSrc { name: o.name.clone(), xml: peer_doc(&o), via_rfsm: false, model: None });
@@ -196,7 +200,14 @@ impl Property for C17Prop {
             let p = rng.below(np as u64) as usize;
             producers[p].push(PStep::Start { doc: m + k });
         }
-        let evs = ["go", "back", "hello", "finish", "go", "back", "poke", "poke"];
+        let evs = if exp { ["arr"; 10] } else { ["go", "back", "hello", "finish", "go", "back", "poke", "poke", "arr", "arr"] };
+        let mk_ev = |name: &str| -> EvSpec {
+            let mut e = EvSpec::simple(name);
+            if name == "arr" {
+                e.params.push(("p".into(), crate::scenario::PVal::Arr(vec![1, 2])));
+            }
+            e
+        };
         for p in 0..np {
             for _ in 0..rng.range(1, 5) {
                 let sess = rng.below(m as u64) as usize;
@@ -204,7 +215,7 @@ impl Property for C17Prop {
                 if rng.chance(1, 8) {
                     producers[p].insert(pos, PStep::Cancel { sess });
                 } else {
-                    producers[p].insert(pos, PStep::Send { sess, ev: EvSpec::simple(*rng.pick(&evs[..])) });
+                    producers[p].insert(pos, PStep::Send { sess, ev: mk_ev(*rng.pick(&evs[..])) });
                 }
                 if rng.chance(1, 5) {
                     producers[p].push(PStep::Yield);
@@ -213,7 +224,7 @@ impl Property for C17Prop {
         }
         script.push(Step::Producers { ids: (0..np).collect() });
         for _ in 0..rng.below(3) {
-            script.push(Step::Send { sess: rng.below(m as u64) as usize, ev: EvSpec::simple(*rng.pick(&evs[..])) });
+            script.push(Step::Send { sess: rng.below(m as u64) as usize, ev: mk_ev(*rng.pick(&evs[..])) });
         }
         let shutdown = rng.chance(1, 6);
         if shutdown {
@@ -226,7 +237,7 @@ impl Property for C17Prop {
         script.push(Step::DrainTimers { max: 12 });
         if !shutdown {
             for _ in 0..rng.below(3) {
-                script.push(Step::Send { sess: rng.below(m as u64) as usize, ev: EvSpec::simple(*rng.pick(&evs[..])) });
+                script.push(Step::Send { sess: rng.below(m as u64) as usize, ev: mk_ev(*rng.pick(&evs[..])) });
             }
             script.push(Step::DrainTimers { max: 12 });
         }
@@ -260,6 +271,8 @@ impl Property for C17Prop {
                     }
                 }
                 RecKind::Driver { what } if what == "shutdown" => probes.hit("shutdown_called"),
+                RecKind::Mark { args, .. } if args.first().map(|a| a.as_str()) == Some("'carr'") => probes.hit("array_event_read_by_child"),
+                RecKind::Mark { args, .. } if args.first().map(|a| a.as_str()) == Some("'parr'") => probes.hit("array_event_read_by_parent"),
                 RecKind::Spawn { .. } => {}
                 RecKind::ThreadStart { .. } => {
                     lock_tasks += 0;
